@@ -108,7 +108,9 @@ KEYWORDS = set('A B C D E H L I R AF BC DE HL SP IX IY IXH IXL IYH IYL NZ Z NC P
 
 INSTR = [('XOR A', 1), ('NOP', 1), ('LD A,{n}', 2), ('LD B,{n}', 2), ('LD BC,{nn}', 3), ('LD HL,{nn}', 3), ('INC A', 1), ('RET', 1), ('LD (IX+{d}),{n}', 4), ('CP {n}', 2), ('DEFB {n},{n}', 2),
          ('DEFW {nn}', 2), ('DEFS 3', 3), ('DEFM "ab"', 2), ('LD ({nn}),A', 3), ('OUT ({n}),A', 2),
-         ('DEFM "Dir\\\\","Games"', 9), ('DEFB "a\\"B",1', 4), ('DEFM "x;Y"', 3), ('DEFM "Say \\"Hi\\"","Ok"', 10), ('LD A,"q"', 2), ('DEFB 1,"\\\\","Zz"', 4), ('DEFS 2,"a"', 2)]
+         ('DEFM "Dir\\\\","Games"', 9), ('DEFB "a\\"B",1', 4), ('DEFM "x;Y"', 3), ('DEFM "Say \\"Hi\\"","Ok"', 10), ('LD A,"q"', 2), ('DEFB 1,"\\\\","Zz"', 4), ('DEFS 2,"a"', 2),
+         # lower-case data mnemonics with strings that contain index-register names (no case option may touch the characters)
+         ('defm "SIXLIVES"', 8), ('defb "IYH",1', 4), ('DEFM "SIXHIYL"', 7), ('defm "ixl"', 3), ('defw {nn}', 2)]
 REF = [('JP {ref}', 3), ('CALL {ref}', 3), ('LD HL,{ref}', 3), ('LD DE,{ref}', 3), ('JR {ref}', 2), ('DJNZ {ref}', 2), ('DEFW {ref}', 2), ('LD BC,({ref})', 4)]
 SUBS = ['NOP', 'XOR A', 'LD A,{n}', 'LD BC,{nn}', 'INC A', 'LD (IX+{d}),{n}', 'LD A,B']
 
@@ -247,6 +249,27 @@ def run(ctx, repo):
                                lines, [l for l in asm if l.strip() and not l.lstrip().startswith(';')]))
         else:
             ctx.ok({'file': k, 'modes': (asm_mode, fix_mode), 'bytes': len(img_b)} if k % 10 == 0 else None)
+    # data statements in either mnemonic case whose strings contain register names and hex-looking words: every case / base option must
+    # leave the characters alone (fixed file, all nine option pairs)
+    fixed = ['@start', '@org=40000', '; Data', 'b40000 defm "SIXLIVES"', ' 40008 DEFM "SIXHIYL"', ' 40015 defb "IYH",1', ' 40019 DEFB "ixl",$1F', ' 40023 defw 40000,"a"',
+             ' 40027 Defm "A$1Fb%101"', ' 40036 defs 2,"h"', ' 40038 LD A,"h"', ' 40040 ld a,"H"', ' 40042 RET']
+    for case in (0, 1, 2):
+        for base in (0, 10, 16):
+            name = 'fixed data file, case option %d, base option %d' % (case, base)
+            try:
+                asm = B.skool2asm(fixed, 1, 0, case=case, base=base, create_labels=False)
+                base_a, img_a = B.assemble_text(asm)
+                base_b, img_b = B.skool2bin_mode(fixed, 0, 0)
+            except NotLiteral as e:
+                ctx.limit('pipeline', 'not foldable (%s): %s' % (name, e))
+                continue
+            except (AsmError, KeyError, IndexError, ValueError, TypeError, AttributeError, NameError) as e:
+                ctx.violation('pipeline data strings', where, '%s: fails with %s: %s' % (name, type(e).__name__, str(e)[:200]))
+                continue
+            if (base_a, img_a) != (base_b, img_b):
+                ctx.violation('pipeline data strings', where, '%s: skool2asm output assembles to base %s %s, skool2bin writes base %s %s; asm: %s' % (name, base_a, list(img_a), base_b, list(img_b), [l for l in asm if l.strip() and not l.lstrip().startswith(';')]))
+            else:
+                ctx.ok()
     # a reference to an instruction that has no label and is moved by an insertion (one fixed case)
     lines = ['@start', '@org=40000', '; Routine at 40000', 'c40000 LD (256),A', '@rsub=+LD (IX+127),127', ' 40003 LD HL,40012', ' 40006 CP 1', ' 40008 RET', ' 40009 NOP', ' 40010 NOP', ' 40011 NOP', ' 40012 LD B,127']
     try:
